@@ -24,14 +24,16 @@ Proof. exact covered_once. Qed.
 Print Assumptions C11_covered_once.
 
 (* The recursion of add_peer is bounded: with fuel 386 (one level per halving of a 384-bit range, plus the probe
-   retry) it never runs out, and it never fails to find a bucket. *)
+   retry) it never runs out and it never fails to find a bucket; unless a probe fails locally it returns. *)
 Theorem C11_fuel_suffices : forall own ops p e fuel,
   own < M -> Forall op_valid ops -> pid p < M -> (386 <= fuel)%nat ->
-  exists v probed t', add_peer true own e fuel (run own ops) p = (Ret v, probed, t').
+  exists r probed t', add_peer true own e fuel (run own ops) p = (r, probed, t') /\ r <> ErrFuel /\ r <> ErrIndex /\
+    ((forall q, probe e q <> PLocalFail) -> exists v, r = Ret v).
 Proof. exact fuel_suffices. Qed.
 Print Assumptions C11_fuel_suffices.
 
-(* No operation of any history raises (IndexError) or runs out of fuel. *)
+(* No operation of any history raises IndexError or runs out of fuel (the only exception that can leave add_peer is the
+   probe's own, see C11_local_failure_displaces_nobody). *)
 Theorem C11_no_error : forall own ops, own < M -> Forall op_valid ops -> Forall out_ok (outs own ops).
 Proof. exact no_error. Qed.
 Print Assumptions C11_no_error.
@@ -55,11 +57,12 @@ Theorem C11_rpc_closest_exact : forall own ops key requester,
 Proof. exact rpc_exact. Qed.
 Print Assumptions C11_rpc_closest_exact.
 
-(* A contact that answers the probe is still in the table after a newcomer with another id at another address
-   was offered, whatever the rest of the environment says. *)
+(* A contact that answers the probe -- or that could not even be asked because the local send failed (PLocalFail) -- is
+   still in the table after a newcomer with another id at another address was offered, whatever the rest of the
+   environment says: only a timeout or an error answer (PDead) can cost a contact its place. *)
 Theorem C11_live_contact_kept : forall own ops p e x,
   own < M -> Forall op_valid ops -> pid p < M ->
-  In x (contacts (run own ops)) -> pid x <> pid p -> pkey x <> pkey p -> probe e x = true ->
+  In x (contacts (run own ops)) -> pid x <> pid p -> pkey x <> pkey p -> probe e x <> PDead ->
   In x (contacts (fst (step true own (run own ops) (Add p e)))).
 Proof. exact live_contact_kept. Qed.
 Print Assumptions C11_live_contact_kept.
@@ -69,7 +72,7 @@ Theorem C11_displaced_only_if_probed : forall own ops p e x,
   own < M -> Forall op_valid ops -> pid p < M ->
   In x (contacts (run own ops)) -> pid x <> pid p -> pkey x <> pkey p ->
   match step true own (run own ops) (Add p e) with
-  | (t', OAdd _ probed) => In x (contacts t') \/ (In x probed /\ probe e x = false)
+  | (t', OAdd _ probed) => In x (contacts t') \/ (In x probed /\ probe e x = PDead)
   | _ => False
   end.
 Proof. exact displaced_only_if_probed. Qed.
@@ -104,12 +107,27 @@ Theorem C11_get_peer_exact : forall own ops id,
 Proof. exact get_peer_exact. Qed.
 Print Assumptions C11_get_peer_exact.
 
-(* Among several buckets none is empty: _join_buckets always runs to completion. *)
+(* Among several buckets none is empty: _join_buckets always runs to completion (as long as no probe failed locally:
+   that exception leaves add_peer past the pending _join_buckets calls). *)
 Theorem C11_no_empty_bucket : forall own ops,
-  own < M -> Forall op_valid ops ->
+  own < M -> Forall op_valid ops -> Forall op_nofail ops ->
   (length (run own ops) <= 1)%nat \/ Forall (fun b => bpeers b <> []) (run own ops).
 Proof. exact no_empty_bucket. Qed.
 Print Assumptions C11_no_empty_bucket.
+
+(* A probe that fails locally (the OSError of sendto() that KademliaProtocol._send puts on the pending future) is not
+   evidence against the incumbent: the exception leaves add_peer, exactly one contact was probed and it is still in
+   the table, the newcomer is not inserted, nothing new appears and every contact at another address is kept. *)
+Theorem C11_local_failure_displaces_nobody : forall own ops p e probed,
+  own < M -> Forall op_valid ops -> pid p < M ->
+  snd (step true own (run own ops) (Add p e)) = OAdd ErrProbe probed ->
+  let t' := fst (step true own (run own ops) (Add p e)) in
+  (exists q, probed = [q] /\ probe e q = PLocalFail /\ In q (contacts t')) /\
+  (forall x, In x (contacts t') -> pid x <> pid p) /\
+  (forall x, In x (contacts t') -> In x (contacts (run own ops))) /\
+  (forall x, In x (contacts (run own ops)) -> pkey x <> pkey p -> In x (contacts t')).
+Proof. exact local_failure_displaces_nobody. Qed.
+Print Assumptions C11_local_failure_displaces_nobody.
 
 (* One add_peer call sends at most one probe. *)
 Theorem C11_single_probe : forall own ops p e,
@@ -184,4 +202,12 @@ Example C11_ex_same_id_new_address :
 Proof. vm_compute. reflexivity. Qed.
 (* requester 3 looks up its own id in a table of twelve contacts: eight answers, itself left out, the ninth nearest in *)
 Example C11_ex_rpc : map pid (rpc_find_node 0 (run 0 gap_ops) 3 3) = [2; 1; 4; 11; 10; 12; 20; 2 ^ 383 + 3].
+Proof. vm_compute. reflexivity. Qed.
+(* the same ninth far contact while the local send of the ping fails: the exception leaves add_peer, all eight stay *)
+Example C11_ex_local_failure :
+  let far := map (fun i => Add (pk (2 ^ 383 + i) i) env0) [1; 2; 3; 4; 5; 6; 7; 8] in
+  let e := mkEnv (fun _ => false) (fun _ => Stale) (fun _ => PLocalFail) in
+  (snd (step true 0 (run 0 far) (Add (pk (2 ^ 383 + 9) 9) e)),
+   map pid (contacts (fst (step true 0 (run 0 far) (Add (pk (2 ^ 383 + 9) 9) e)))))
+  = (OAdd ErrProbe [pk (2 ^ 383 + 1) 1], map (fun i => 2 ^ 383 + i) [1; 2; 3; 4; 5; 6; 7; 8]).
 Proof. vm_compute. reflexivity. Qed.
